@@ -442,28 +442,31 @@ func termRules(c *Ctx) {
 		}
 		for ei, e := range edges {
 			nEdges++
-			prop := "C09"
+			props := []string{"C09"}
 			if strings.HasSuffix(c.P.Fset.Position(e.caller.Decl.Pos()).Filename, "/schema.go") {
-				prop = "C20"
+				props = []string{"C20", "C09"}
 			}
 			key := e.caller.QName() + "->" + e.callee.Name()
-			switch bestRel[ei] {
-			case "strict":
-				c.S.Hold(prop, "TERM-REC", key, c.P.Pos(e.call.Pos()), "the recursive call passes a strict sub-component of the caller's measure ("+strings.Join(names, ", ")+"): structural descent on a finite document")
-			case "equal":
-				c.S.Hold(prop, "TERM-REC", key, c.P.Pos(e.call.Pos()), "the call passes the caller's measure unchanged and every cycle through it contains a strictly descending call")
-			case "guarded":
-				c.S.Hold(prop, "TERM-REC", key, c.P.Pos(e.call.Pos()), "the recursive call is dominated by a negative membership test on a visited set that the function extends")
-			default:
-				c.S.Violate(prop, "TERM-REC", key, c.P.Pos(e.call.Pos()),
-					fmt.Sprintf("recursive call %s → %s passes %s, which is neither a sub-component of the caller's measure (%s) nor guarded by a visited set or depth bound: the recursion is unbounded on self-referential input",
-						e.caller.Name(), e.callee.Name(), exprStr(c.actualForBest(e, bestAssign[pos[e.callee]])), bestAssign[pos[e.caller]].String()))
+			for _, prop := range props {
+				switch bestRel[ei] {
+				case "strict":
+					c.S.Hold(prop, "TERM-REC", key, c.P.Pos(e.call.Pos()), "the recursive call passes a strict sub-component of the caller's measure ("+strings.Join(names, ", ")+"): structural descent on a finite document")
+				case "equal":
+					c.S.Hold(prop, "TERM-REC", key, c.P.Pos(e.call.Pos()), "the call passes the caller's measure unchanged and every cycle through it contains a strictly descending call")
+				case "guarded":
+					c.S.Hold(prop, "TERM-REC", key, c.P.Pos(e.call.Pos()), "the recursive call is dominated by a negative membership test on a visited set that the function extends")
+				default:
+					c.S.Violate(prop, "TERM-REC", key, c.P.Pos(e.call.Pos()),
+						fmt.Sprintf("recursive call %s → %s passes %s, which is neither a sub-component of the caller's measure (%s) nor guarded by a visited set or depth bound: the recursion is unbounded on self-referential input",
+							e.caller.Name(), e.callee.Name(), exprStr(c.actualForBest(e, bestAssign[pos[e.callee]])), bestAssign[pos[e.caller]].String()))
+				}
 			}
 		}
 	}
 	if nEdges < 14 {
 		c.S.Undecided("C09", "TERM-REC", "floor", "-", fmt.Sprintf("only %d recursive call sites found (confirmed by hand: 17)", nEdges))
 	}
+	c.visitedThreading(sccs)
 	c.loopRules()
 }
 
@@ -571,4 +574,110 @@ func condStr(fs *ast.ForStmt) string {
 		return "{}"
 	}
 	return exprStr(fs.Cond)
+}
+
+// visitedThreading: where a cycle of the call graph is cut by a visited-set test, the set must reach that
+// test along every other edge of the cycle: every construction, inside the cycle, of a struct that has a
+// field of the set's type copies that field from the constructing function's own carrier (parameter or
+// receiver field of the same type). A struct literal that leaves the field out resets the set to nil and the
+// guard no longer sees what was visited.
+func (c *Ctx) visitedThreading(sccs [][]*core.FuncInfo) {
+	for _, scc := range sccs {
+		// the carrier type: type of the map tested by a guarded edge
+		var carrier types.Type
+		var guardFn *core.FuncInfo
+		for _, f := range scc {
+			info := c.info(f)
+			for _, call := range calls(f.Decl.Body) {
+				callee := c.P.StaticCallee(f, call)
+				if callee == nil {
+					continue
+				}
+				in := false
+				for _, g := range scc {
+					if g.Obj == callee {
+						in = true
+					}
+				}
+				if !in || !c.visitedGuarded(f, call) {
+					continue
+				}
+				for _, cd := range c.conds(f, call) {
+					if cd.Kind == core.CondBool && cd.Neg {
+						if m, _, ok := c.commaOkLookup(f, cd.Expr); ok {
+							carrier = info.TypeOf(m)
+							guardFn = f
+						}
+					}
+				}
+			}
+		}
+		if carrier == nil {
+			continue
+		}
+		hasCarrierField := func(t types.Type) (string, bool) {
+			st, ok := core.Deref(t).Underlying().(*types.Struct)
+			if !ok {
+				return "", false
+			}
+			for i := 0; i < st.NumFields(); i++ {
+				if types.Identical(st.Field(i).Type(), carrier) {
+					return st.Field(i).Name(), true
+				}
+			}
+			return "", false
+		}
+		for _, f := range scc {
+			info := c.info(f)
+			props := []string{"C09"}
+			if strings.HasSuffix(c.P.Fset.Position(f.Decl.Pos()).Filename, "/schema.go") {
+				props = []string{"C20", "C09"}
+			}
+			ast.Inspect(f.Decl.Body, func(nd ast.Node) bool {
+				cl, ok := nd.(*ast.CompositeLit)
+				if !ok {
+					return true
+				}
+				t := info.TypeOf(cl)
+				fname, has := hasCarrierField(t)
+				if !has {
+					return true
+				}
+				_, tn := core.NamedOf(t)
+				var val ast.Expr
+				for _, el := range cl.Elts {
+					if kv, ok := el.(*ast.KeyValueExpr); ok {
+						if id, ok := kv.Key.(*ast.Ident); ok && id.Name == fname {
+							val = kv.Value
+						}
+					}
+				}
+				key := f.QName() + "/" + tn + "{" + fname + "}"
+				if val == nil {
+					for _, prop := range props {
+						c.S.Violate(prop, "TERM-THREAD", key, c.P.Pos(cl.Pos()),
+							"this "+tn+" is built without its "+fname+" field although the recursion through "+guardFn.Obj.Name()+" relies on that set to stop: the set restarts empty on this edge and a cycle through it is followed until the stack overflows")
+					}
+					return true
+				}
+				// the value derives from a carrier of the constructing function (same-typed field of its receiver/parameters)
+				// or from a local built from one (the extended copy)
+				derived := false
+				ast.Inspect(val, func(m ast.Node) bool {
+					if e, ok := m.(ast.Expr); ok {
+						if tt := info.TypeOf(e); tt != nil && types.Identical(tt, carrier) {
+							derived = true
+						}
+					}
+					return true
+				})
+				for _, prop := range props {
+					c.S.Decide(derived, prop, "TERM-THREAD", key, c.P.Pos(cl.Pos()),
+						"the visited set is handed on ("+exprStr(val)+")",
+						"the "+fname+" field of this "+tn+" is not computed from a visited set ("+exprStr(val)+")")
+				}
+				return true
+			})
+		}
+	}
 }
